@@ -425,7 +425,7 @@ def blotter_spec(draw):
         "additional": ["tx"],
         "bidoffer": {},
         "integer_positions": False,
-        "initial_capital": 1e7,
+        "initial_capital": 1e10,  # the blotter is executed whatever it costs: enough capital that no generated blotter ruins the book
         "fee": draw(gen.fee_spec(gen.min_price(pr), kinds=("none", "prop"))),
         "tree": {"name": "root", "kind": "Strategy", "algos": [algo], "children": [{"sec": t, "kind": "Security", "mult": draw(st.sampled_from([1.0, 1.0, 10.0]))} for t in tickers]},
     }
@@ -447,6 +447,8 @@ def case_blotter(ctx, spec):
             b.run()
     except Exception as e:
         raise Discard("run raised (C10's business): %s" % type(e).__name__)
+    if b.strategy.bankrupt:
+        raise Discard("the blotter ruins the book (liquidated)")
     algo = spec["tree"]["algos"][0]
     floor = algo[1].get("min_qty", 0.0)
     bars = [pd.Timestamp(d) for d in spec["dates"]]
